@@ -211,13 +211,13 @@ class WorldC05(World):
         if self.plan:
             return self.plan.pop(0)
         side = side_stream(rng)
+        op = self._gen_op0(rng)        # (drawn first: the main stream must move on whatever is returned)
         okp = sorted(p_ for p_, r_ in self.ref.items() if r_[0] == 'ok' and p_ in self.ack_text)
         if okp and side.random() < 0.04:
             # a tool between the writer and the reader pads the fixed-column records with trailing blanks (card images of 84
             # or 132 columns, an editor that leaves a blank behind): still the same Chemkin layout, the same species
             return {'c': 0, 'op': 'pad', 'gc': True, 'args': {'path': side.choice(okp), 'i': side.randrange(400),
                                                              'mode': side.choice(['all84', 'all132', 'one', 'records', 'single'])}}
-        op = self._gen_op0(rng)
         if op['op'] == 'write' and op.get('fault') is None and rng.random() < 0.05:
             # scripted: the disk fills up half-way through a write; the caller frees space and writes the same thing again;
             # later the interpreter collects what the failed call left behind
@@ -290,6 +290,15 @@ class WorldC05(World):
                 'supp_txt': rng.choice([None, None, '! comment line', '! two\n! lines\n', '! Species APPENDED by J. ENDERS',
                                         '! LEGEND: THERMO data fitted 300-1500 K\n! END of notes']),
                 'newline': rng.choice(['\n', '\n', '\r\n'])}
+            side = side_stream(rng)
+            if sw['max_species'] >= 50 and not same_shape and side.random() < 0.12:
+                # the largest file the property speaks of: 200 species and a banner of comments (beyond 64 KiB)
+                while len(species) < 200:
+                    species.append(self._species(side, used))
+                args['species'] = species[:200]
+                args['supp_txt'] = '\n'.join('! %02d  thermodynamic data set assembled for the full mechanism, revision %d' % (i_, i_)
+                                             for i_ in range(side.randint(12, 30)))
+                args['reuse'] = None
             if same_shape:
                 # a file of exactly the same length, written within the same tick of the file system's clock
                 args.update(write_date=shape['write_date'], supp_txt=shape['supp_txt'], newline=shape['newline'], reuse=None)
